@@ -1,0 +1,5 @@
+//go:build !verif
+
+package runner
+
+func verifYield(point, label string) {}
